@@ -202,4 +202,22 @@ Proof.
   unfold Rdiv. rewrite <- Rmult_plus_distr_r. rewrite Rplus_comm, <- D. field. exact Hnz.
 Qed.
 
+(* non-vacuity: a two-security strategy whose recorded row 1 satisfies the hypotheses of the theorem above *)
+Example rowbs_example (g0 : strat RNumI A) (s0 : secR) :
+  let root : nodeR :=
+      NStrat (set_hg_values (N:=RNumI) ([100; 110] : list R) (set_hg_cash (N:=RNumI) ([100; 40] : list R) (set_g_fi false g0)))
+             [NSec (set_h_values (N:=RNumI) ([0; 50] : list R) s0); NSec (set_h_values (N:=RNumI) ([0; 20] : list R) s0)] [] None in
+  root_fi root = false /\ RowBS 1 root /\
+  Forall (fun s : secR => (1 < length (h_values s))%nat) (secs_of root) /\
+  (1 < length (h_vals root))%nat /\ row 1 (h_vals root) <> 0.
+Proof.
+  cbv zeta. split; [|split; [|split; [|split]]].
+  - destruct g0; reflexivity.
+  - constructor; [|repeat constructor].
+    destruct g0, s0. cbn. unfold row. cbn. lra.
+  - destruct s0. cbn. repeat constructor; cbn; lia.
+  - destruct g0. cbn. lia.
+  - destruct g0. cbn. unfold row. cbn. lra.
+Qed.
+
 End Rep.
